@@ -75,7 +75,6 @@ def gen_chains(ctx):
 
 
 def run(ctx):
-    ctx.level = "other"  # becomes "proof" once C07_full_statement is closed
     proved = common.proof_stage(ctx)
     bindir, log = common.build_harness()
     if bindir is None:
